@@ -182,12 +182,16 @@ func init() {
 			}, "arraylist", "sll")...)
 	}}
 	properties["C06"] = propDef{run: func(c *Ctx) *PropertyRun {
-		return pr("other", "Decided: (R8) the loaders of BinaryHeap and PriorityQueue insert through the heap's own insertion path (Push re-heapifies) — the defect named in the property; (R22) Peek reads slot 0; Pop returns slot 0 read before Swap(0,n-1); Remove(n-1); bubbleDown and leaves an empty heap alone; Push(v) = Add; bubbleUp and Push(vs...) = Add*; bubbleDownIndex(i) for i from n/2 down to 0; the sift routines swap only on a comparator verdict and follow the element they move; Values() is filled from the heap's own iterator; the queue's heap is built with the queue's comparator; (R20) PriorityQueue delegates every operation to the heap; (R13b) neither package compares elements with Go operators — their default comparator is cmp.Compare, not a hand-written `<`/`>` that calls NaN equal to everything; (R30) the array list that stores the heap never pads or truncates its contents (length algebra of C03); (R41) the geometry of the sift routines round by round: children 2i+1 / 2i+2 each looked at only below the heap's own size, the smaller child chosen, a swap only knowing cmp(slot, child) > 0 and continuing there, a stop only knowing that no child exists or that the slot is in order with its smaller child; sift-up from size-1 through (i-1)/2 with the mirror conditions. Not decided: that these local conditions add up to the heap order for every history (the induction over the tree is not carried out), multiset preservation, level-sorted iterator values. Inherited (substrate): the array list that stores the heap — length algebra and index guards."+notBehaviour,
+		return pr("other", "Decided: (R8) the loaders of BinaryHeap and PriorityQueue insert through the heap's own insertion path (Push re-heapifies) — the defect named in the property; (R22) Peek reads slot 0; Pop returns slot 0 read before Swap(0,n-1); Remove(n-1); bubbleDown and leaves an empty heap alone; Push(v) = Add; bubbleUp and Push(vs...) = Add*; bubbleDownIndex(i) for i from n/2 down to 0; the sift routines swap only on a comparator verdict and follow the element they move; Values() is filled from the heap's own iterator; the queue's heap is built with the queue's comparator; (R20) PriorityQueue delegates every operation to the heap; (R13b) neither package compares elements with Go operators — their default comparator is cmp.Compare, not a hand-written `<`/`>` that calls NaN equal to everything; (R30) the array list that stores the heap never pads or truncates its contents (length algebra of C03); (R41) the geometry of the sift routines round by round: children 2i+1 / 2i+2 each looked at only below the heap's own size, the smaller child chosen, a swap only knowing cmp(slot, child) > 0 and continuing there, a stop only knowing that no child exists or that the slot is in order with its smaller child; sift-up from size-1 through (i-1)/2 with the mirror conditions. (R14, R1) iteration exposes the live contents: the heap's iterator follows the cursor protocol, the priority queue's iterator forwards every method to it, and neither keeps anything but its cursor (an iterator that serves Value() from a remembered Values() shows removed elements after a Dequeue+Enqueue). Not decided: that these local conditions add up to the heap order for every history (the induction over the tree is not carried out), multiset preservation, level-sorted iterator values. Inherited (substrate): the array list that stores the heap — length algebra and index guards."+notBehaviour,
 			withSubstrates(c, []*RuleResult{
 				prefixFilter(c.rule("R8", ruleR8), "R8", "LOADER: heap / priority-queue FromJSON", 6, "R8:trees/binaryheap", "R8a:trees/binaryheap", "R8b:trees/binaryheap", "R8c:trees/binaryheap", "R8d:trees/binaryheap", "R8e:trees/binaryheap", "R8:queues/priorityqueue", "R8e:queues/priorityqueue"),
 				filter(c.rule("R22", ruleR22), "R22", "HEAP: Push/Pop/Peek use the root slot and hand every change to the sift routines", 6, func(o Obligation) bool { return !strings.HasPrefix(o.Key, "R22s:") }), c.rule("R41", ruleR41), rolesFor(c, "C06"),
 				prefixFilter(c.rule("R13", ruleR13), "R13", "ORDER: heap and priority queue never compare elements with Go operators, only through the comparator", 2, "R13b:trees/binaryheap", "R13b:queues/priorityqueue"),
 				prefixFilter(c.rule("R30", ruleR30), "R30", "LENGTH: the array list that stores the heap", 25, "R30:lists/arraylist"),
+				filter(c.rule("R14", ruleR14), "R14", "ITERATION: the heap's iterator follows the cursor protocol and the priority queue's iterator is a pure wrapper of it (iteration exposes the live contents, first element = Peek)", 19, func(o Obligation) bool {
+					return strings.Contains(o.Key, ":trees/binaryheap.Iterator") || strings.Contains(o.Key, ":queues/priorityqueue.Iterator")
+				}),
+				prefixFilter(c.rule("R1", ruleR1), "R1", "ITERATION: the iterators of heap and priority queue write nothing but their own cursor (no memo of an earlier pass)", 20, "R1:trees/binaryheap.(*Iterator)", "R1:queues/priorityqueue.(*Iterator)"),
 			}, "arraylist")...)
 	}}
 	properties["C07"] = propDef{run: func(c *Ctx) *PropertyRun {
@@ -231,7 +235,7 @@ func init() {
 				prefixFilter(c.rule("R22", ruleR22), "R22s", "HEAP: re-heapifying the serialized heap reproduces it (sift routines exchange elements only on a strict verdict)", 2, "R22s:")}, "C01", "C03", "C04", "C05", "C06", "C09", "C10")...)
 	}}
 	properties["C12"] = propDef{run: func(c *Ctx) *PropertyRun {
-		return pr("other", "Decided: for all 21 FromJSON — loaders decode into a fresh temporary, never live memory (R8a: atomic on error, replace not merge); every write to the receiver is guarded by err == nil (R8b); the receiver's Clear dominates every insertion (R8c: no prior element survives); elements enter only through the container's own exported insertion methods (R8d: sets deduplicate, trees sort, BidiMaps stay one-to-one, the ring keeps the last capacity-many, the heap re-heapifies — by the guarantees of those methods); forwarding loaders are sound because every insertion method of the type is a pure forwarder to the same field (R8e); (R6) a Go-map field that is assigned to can never become nil (the input null cannot make a later Put panic). and the insertion methods themselves carry their structural clauses here (R22 Push re-heapifies the whole heap, R19b the ring's Enqueue, R16put the BidiMaps' Put, R15a/b the linked hash containers, R24 the hash containers, R30 the array list's Add). Not decided: arbitrary follow-up operation sequences beyond 'inserted through the own insertion method' (then C01/C04 apply)."+notBehaviour,
+		return pr("other", "Decided: for all 21 FromJSON — loaders decode into a fresh temporary, never live memory (R8a: atomic on error, replace not merge); every write to the receiver is guarded by err == nil (R8b); the receiver's Clear dominates every insertion (R8c: no prior element survives); elements enter only through the container's own exported insertion methods (R8d: sets deduplicate, trees sort, BidiMaps stay one-to-one, the ring keeps the last capacity-many, the heap re-heapifies — by the guarantees of those methods); forwarding loaders are sound because every insertion method of the type is a pure forwarder to the same field (R8e); (R6) a Go-map field that is assigned to can never become nil (the input null cannot make a later Put panic). and the insertion methods themselves carry their structural clauses here (R22 Push re-heapifies the whole heap, R19b the ring's Enqueue, R16put the BidiMaps' Put, R15a/b the linked hash containers, R24 the hash containers, R30 the array list's Add; for Push the heapify start is computed from the size after the path's own appends); (R9f) what the input denotes for the insertion-ordered map includes the order of its members — its loader hands the raw input only to the JSON decoder (a text search cannot tell a key from equal text elsewhere; a search is identified by what it looks for, so the recorded finding F7 does not cover a differently built needle). Not decided: arbitrary follow-up operation sequences beyond 'inserted through the own insertion method' (then C01/C04 apply)."+notBehaviour,
 			c.rule("R8", ruleR8), c.rule("R6", ruleR6), controlFor(c, "R6", "R8"),
 			// the insertion paths the loaders rely on (R8d hands every decoded element to them)
 			prefixFilter(c.rule("R22", ruleR22), "R22", "insertion path of the heap loaders: Push appends and re-heapifies the whole heap", 1, "R22:trees/binaryheap.Heap.Push"),
@@ -239,7 +243,10 @@ func init() {
 			prefixFilter(c.rule("R16", ruleR16), "R16", "insertion path of the BidiMap loaders: Put keeps the map one-to-one", 2, "R16put:"),
 			prefixFilter(c.rule("R15", ruleR15), "R15", "insertion path of the linked hash loaders: table and order list gain a key together", 4, "R15a:", "R15b:"),
 			prefixFilter(c.rule("R24", ruleR24), "R24", "insertion path of the hash loaders: Put/Add are the Go-map assignment", 2, "R24:maps/hashmap.(*Map).Put", "R24:sets/hashset.(*Set).Add"),
-			prefixFilter(c.rule("R30", ruleR30), "R30", "insertion path of the array-backed loaders: Add grows the list by exactly the added values", 1, "R30:lists/arraylist.(*List).Add"))
+			prefixFilter(c.rule("R30", ruleR30), "R30", "insertion path of the array-backed loaders: Add grows the list by exactly the added values", 1, "R30:lists/arraylist.(*List).Add"),
+			// what the input denotes for the insertion-ordered map includes the order of its members: recovered by the decoder,
+			// not by searching the text (finding F7 is this clause on today's tree)
+			prefixFilter(c.rule("R9", ruleR9), "R9", "ORDER OF THE DOCUMENT: the insertion-ordered map's loader hands its raw input only to the JSON decoder", 1, "R9f:maps/linkedhashmap"))
 	}}
 	properties["C13"] = propDef{run: func(c *Ctx) *PropertyRun {
 		return pr("other", "Decided: (R18) for the three sets, Intersection has one loop per operand that adds the current element iff the other operand contains it (both arms, selected by comparing sizes), Union adds every element of both operands in two consecutive loops, Difference adds an element of the receiver iff the argument does not contain it; membership is tested on the right operand with the current element; the result is built by the set's constructor (TreeSet: with the operands' comparator, loops reachable only after the comparators were found identical); (R1) neither operand is written on any path — in particular when both are the same object; (R2d) the result embeds no pointer, slice or map of an operand. Not decided: membership exactness beyond the arm structure (rests on Contains/Add, C04). Inherited: the set operations are built from the sets' own Add/Contains/iteration — all clauses of C04 (including the red-black tree and the order list under TreeSet and LinkedHashSet) are part of this check."+notBehaviour,
